@@ -19,7 +19,7 @@ LaneMask == LET nums == {IF Barrel = "IB" THEN IbLane(LaneIdSeq[i]) ELSE ObLane(
                 Sum(S) == IF S = {} THEN 0 ELSE LET x == CHOOSE x \in S : TRUE IN Pow2(x) + Sum(S \ {x})
             IN Sum(nums)
 BcDom == {0, 3563}                                 \* includes the accepting boundary 0xdeb
-AbcDom == {17, 200}                                       \* ALPIDE bunch counter byte
+AbcDom == {0, 17, 200}                                    \* ALPIDE bunch counter byte (0 looks like a padding byte)
 TtRdh(h) == IF h = 1 THEN 27139 ELSE 24595
 OrbitOf(h) == 1000 + h
 
